@@ -209,7 +209,7 @@ def check_client(report, lib: Lib, is_async: bool):
 
 def check_python(report):
     r = report.rule("C05.4", "_fields_mapping: OrderedDict in signature order, key suffixed iff the leaf proto name is reserved; "
-                             "get_field looks up first_field + '_' under the same predicate", floor=4)
+                             "get_field and the key are suffixed under Field.name's condition (reserved and proto-plus)", floor=5)
     m = pm()
     fm = m.func("gapic.schema.wrappers.Method._fields_mapping")
     p = fm.module.path
@@ -224,8 +224,16 @@ def check_python(report):
     r.check(ff["order"], p, fm.node.lineno, "entries in signature order", "the mapping must be built in signature order (insertion-ordered, no re-ordering)")
     gf = m.func("gapic.schema.wrappers.MessageType.get_field")
     r.instance("get_field")
-    node, _, _form = fmatch(m, "self.fields[_F_ + ('_' if _F_ in utils.RESERVED_NAMES else '')]", gf)
-    r.check(node is not None, p, gf.node.lineno, "get_field lookup", "get_field must look up first_field + '_' iff first_field is reserved")
+    node_pp, _, _form = fmatch(m, "self.fields[_F_ + ('_' if _F_ in utils.RESERVED_NAMES and self.meta.address.is_proto_plus_type else '')]", gf)
+    node_un, _, _form = fmatch(m, "self.fields[_F_ + ('_' if _F_ in utils.RESERVED_NAMES else '')]", gf)
+    r.need(node_pp is not None or node_un is not None, "MessageType.get_field: self.fields[<name> + ('_' if <reserved...> else '')]", "lookup key not recognised")
+    r.check(node_pp is not None, p, gf.node.lineno, "get_field lookup: key suffixed for every reserved word",
+            "the keys of `fields` are Field.name (suffixed only when reserved AND proto-plus); get_field must compute its key under the same condition, "
+            "or a method_signature naming a reserved-word field (`type`) of a dependency-package (pb2) request raises KeyError('type_') during generation")
+    r.instance("key suffix agrees with Field.name")
+    r.check(ff["proto_plus_only"] or not ff["key_rule"], p, fm.node.lineno, "flattened key suffixed for every reserved word",
+            "the key is written as `request.<key> = <param>`; a pb2 request keeps the attribute `type`, so the key may be suffixed only when the "
+            "resolved field's own Python name is (reserved AND proto-plus)")
     r.instance("flattened_fields")
     fl = m.func("gapic.schema.wrappers.Method.flattened_fields")
     r.check("client_pb2.method_signature" in ast.unparse(fl.node) and "_fields_mapping" in ast.unparse(fl.node), p, fl.node.lineno,
